@@ -335,6 +335,9 @@ type pwInc struct {
 	applied map[int]error // write id -> result of the local apply (StorageService.Write)
 	applyN  int
 	applySeq []int // write keys (id*4 + shard group) in the order of their local applies
+	applyPos []int // length of the disk journal when the apply ended (parallel to applySeq)
+	lastSnap int   // crashed life: journal position of the last raft snapshot (index > 0) inside the crash image, -1: none
+	ay       pwApplyState // apply-path yield points (p_yield.go; guarded by pwApplyYield.mu)
 	stopLd  chan struct{}
 	checked uint64 // commit index up to which the committed prefix was compared
 	frozen  int    // journal length at the crash instant
@@ -408,17 +411,22 @@ func (s *pwStorageRec) WriteDataFunc(db, rp string, ptId uint32, shardID uint64,
 		w = w*4 + s.c.meta.sgIndex(int((rows[0].Timestamp-sBaseTime)/sStep))
 	}
 	err := s.pwStorage.WriteDataFunc(db, rp, ptId, shardID, rows, binaryRows, snp)
+	pos := s.n.disk.Len() // taken when the rows are in the memtable: the apply loop may have stood at a yield point before
 	s.n.mu.Lock()
 	if old, seen := s.n.applied[w]; !seen || old != nil {
 		s.n.applied[w] = err
 	}
 	s.n.applyN++
 	s.n.applySeq = append(s.n.applySeq, w)
+	s.n.applyPos = append(s.n.applyPos, pos)
 	s.n.mu.Unlock()
 	return err
 }
 
 func (s *pwStorageRec) Write(db, rp, mst string, ptId uint32, shardID uint64, writeData func() error) error {
+	if s.c.ay != nil {
+		s.c.ay.entryStart(s.n) // one entry of a commit batch (or of the restart replay) reaches the storage seam
+	}
 	return s.pwStorage.write(db, rp, mst, ptId, shardID, writeData)
 }
 
@@ -506,6 +514,7 @@ type pwCluster struct {
 	coord  *metaclient.Client // the coordinator's catalogue view (always current)
 	lag    bool               // stores refresh their catalogue cache only when the clock moves
 	yield  bool               // every file-system mutation of a node first lets the node's other goroutines run
+	ay     *pwApplyYield      // scheduling points inside the apply path (nil: off)
 }
 
 func pwNewCluster(env *core.Env, out *core.Outcome, knobs SKnobs, nmst int, syncIv time.Duration, split bool) *pwCluster {
@@ -530,7 +539,7 @@ func (c *pwCluster) startNode(i int, dir string) (*pwInc, error) {
 	now := time.Duration(time.Now().UnixNano()) % (400 * time.Millisecond)
 	time.Sleep((phase - now + 400*time.Millisecond) % (400 * time.Millisecond))
 	c.gen++
-	n := &pwInc{idx: i, gen: c.gen, root: dir, dead: make(chan struct{}), pausedCh: make(chan struct{}), applied: map[int]error{}, stopLd: make(chan struct{})}
+	n := &pwInc{idx: i, gen: c.gen, root: dir, dead: make(chan struct{}), pausedCh: make(chan struct{}), applied: map[int]error{}, stopLd: make(chan struct{}), lastSnap: -1}
 	if old := c.nodes[i]; old != nil {
 		n.inc = old.inc + 1
 	}
